@@ -32,3 +32,43 @@ package parse
 //@   loop 1:
 //@     invariant 1 <= pos && qEnd(t.q, 1) == qEnd(t.q, pos) && unchanged()
 //@     decreases len(t.q) + 2 - pos
+
+// bwEnd: an unquoted word ends at the first white-space or operator rune.
+//@ pure func isOpRune(r rune) bool = r == '(' || r == ')' || r == ':' || r == '@' || r == ','
+//@ rec func bwEnd(q string, i int) int = (i < 0 || i >= len(q)) ? len(q) :
+//@     ((unicode.IsSpace(srune(q, i)) || isOpRune(srune(q, i))) ? i : (srunelen(q, i) >= 1 ? bwEnd(q, i + srunelen(q, i)) : len(q)))
+
+//@ func (t *tokenizer) bareWord() (k tok, n tokenizer)
+//@   props C07
+//@   requires t != nil && tokOK(deref(t))
+//@   ensures tokOK(n) && n.errt == t.errt && 0 <= k.Off <= len(t.errt.qOrig)
+//@   ensures k.Tok == t.q[:bwEnd(t.q, 0)] && n.q == t.q[bwEnd(t.q, 0):]
+//@   ensures k.Kind == (k.Tok == "AND" ? 'A' : (k.Tok == "OR" ? 'O' : 'w'))
+//@   loop 1:
+//@     invariant 0 <= idx() <= len(t.q) && end == len(t.q) && bwEnd(t.q, 0) == bwEnd(t.q, idx())
+//@     decreases len(t.q) - idx()
+
+//@ func regexpParseUntil(str, delim string) (expr, rest string, err error)
+//@   props C07
+//@   ensures err == nil ==> len(expr) <= len(str) && expr == str[:len(expr)] && rest == str[len(expr):] && strings.HasPrefix(rest, delim)
+//@   ensures err != nil ==> err == errNoDelim
+//@   loop 1:
+//@     invariant 0 <= i && 0 <= cs
+//@     decreases len(str) + 2 - i
+
+//@ func (t *tokenizer) regexp() (k tok, n tokenizer)
+//@   props C07
+//@   requires t != nil && tokOK(deref(t)) && len(t.q) > 0
+//@   modifies t, t.errt
+//@   ensures tokOK(n) && n.errt == old(t.errt) && t.errt.qOrig == old(t.errt.qOrig) && 0 <= k.Off <= len(t.errt.qOrig)
+//@   ensures len(n.q) < old(len(t.q))
+
+//@ func (t *tokenizer) next(allowRegexp bool) (k tok, n tokenizer)
+//@   props C07
+//@   requires t != nil && tokOK(deref(t))
+//@   modifies t, t.errt
+//@   ensures tokOK(n) && n.errt == old(t.errt) && t.errt.qOrig == old(t.errt.qOrig) && 0 <= k.Off <= len(t.errt.qOrig)
+//@   ensures len(n.q) <= old(len(t.q)) && (k.Kind != 0 ==> len(n.q) < old(len(t.q)))
+//@   loop 1:
+//@     invariant tokOK(deref(t)) && t.errt == old(t.errt) && t.errt.qOrig == old(t.errt.qOrig) && deref(t.errt) == old(deref(t.errt)) && len(t.q) <= old(len(t.q)) && unchanged(t)
+//@     decreases len(t.q)
